@@ -7,7 +7,7 @@
    <opts>         `-` (empty) or comma-separated items  Name | Name=arg | Name=arg/arg
                   (Name = the Go constructor's name; arg = decimal | hex string | L:hex:hex | `-`)
    <yaml-options> `-` or comma-separated  name=Kvalue  with K = i(nt) f(loat, in quarters)
-                  s(tring, hex) b(ool) q(sequence, L:hex..) n(ull)
+                  s(tring, hex) b(ool) q(sequence of strings, L:hex..) m(ixed sequence) n(ull)
    output         ok Field=value ... (43 fields, fixed order; `-` = not reachable from the driver)
                   | badoption | notfound | panic | bad-input *)
 From Scrapli Require Import Bytes Regex PlatformTypes Generated Options.
@@ -121,6 +121,7 @@ Definition parse_yopt (item : bytes) : bytes * yval :=
   | 115 :: v => (name, YStr (of_hex v))             (* s *)
   | 98 :: v => (name, YBool (parse_bool v))         (* b *)
   | 113 :: v => (name, YSeq (parse_list v))         (* q *)
+  | 109 :: _ => (name, YSeqOther)                   (* m *)
   | _ => (name, YNull)
   end.
 
